@@ -10,8 +10,8 @@ from concurrent.futures import ProcessPoolExecutor
 import vlib
 
 ALPHABET = ["bindx", "bindx2", "refx", "bindy", "outx", "outz", "blank", "perr", "help", "quit", "exitc", "lopen", "litem", "lclose",
-            "popen", "pclose", "refw", "outw", "ropen", "rclose", "outf", "outg", "outf2", "callg", "callf"]
-SMALL = ["bindx", "refx", "outx", "outz", "perr", "quit", "lopen", "litem", "lclose", "popen", "pclose", "help", "blank", "outf", "outg", "outf2"]
+            "popen", "pclose", "refw", "outw", "ropen", "rclose", "outf", "outg", "outf2", "callg", "callf", "nestl", "bindc", "refu"]
+SMALL = ["bindx", "refx", "outx", "outz", "perr", "quit", "lopen", "litem", "lclose", "popen", "pclose", "help", "blank", "outf", "outg", "outf2", "nestl", "bindc", "refu"]
 
 
 def cfg(depth, alphabet):
